@@ -592,20 +592,26 @@ func c09TableLayouts(r *run.Run) {
 }
 
 func c09Table(r *run.Run) {
-	// the last two: full-Unicode (32-bit header) subtables under the Macintosh platform that differ in the language only
-	keys := []cmap.Key{{0, 3, 0}, {0, 4, 0}, {1, 0, 0}, {1, 0, 5}, {3, 1, 0}, {3, 10, 0}, {3, 0, 0}, {1, 0, 7}, {1, 0, 9}}
+	// keys 8 and 9: full-Unicode (32-bit header) subtables under the Macintosh platform that differ in the language only;
+	// the last two: the ISO and Custom platforms (2 and 4)
+	keys := []cmap.Key{{0, 3, 0}, {0, 4, 0}, {1, 0, 0}, {1, 0, 5}, {3, 1, 0}, {3, 10, 0}, {3, 0, 0}, {1, 0, 7}, {1, 0, 9}, {2, 1, 0}, {4, 0, 0}}
 	f4 := cmap.Format4{65: 1, 66: 2}
 	f4b := cmap.Format4{65: 3}
 	f12 := cmap.Format12{65: 1, 0x1F600: 2}
 	var f0 cmap.Format0
 	f0.Data[65] = 4
 	r.Explore(explore.Config{Name: "C09.table"},
-		"cmap.Table over all subsets of 9 (platform, encoding, language) keys (incl. 16- and 32-bit subtable headers under Macintosh keys with non-zero languages) with shared / distinct subtables: Decode(Encode(t)) keeps keys, bytes and sharing; GetBest prefers (3,10) > (0,4) > (3,1) > (0,3) > (1,0)",
+		"cmap.Table over all subsets of 11 (platform, encoding, language) keys (platforms 0..4) (incl. 16- and 32-bit subtable headers under Macintosh keys with non-zero languages) with shared / distinct subtables: Decode(Encode(t)) keeps keys, bytes and sharing; GetBest prefers (3,10) > (0,4) > (3,1) > (0,3) > (1,0)",
 		func(c *explore.Ctx) {
 			t := cmap.Table{}
+			wantMap := map[cmap.Key][3]glyph.ID{} // the glyphs of 'A', 'B' and U+1F600 under each key
 			var desc []string
 			for i, k := range keys {
-				ch := c.Choose(3, fmt.Sprintf("key %v", k))
+				nch := 3
+				if k.PlatformID == 2 || k.PlatformID == 4 || k.PlatformID == 1 {
+					nch = 2 // one possible subtable only
+				}
+				ch := c.Choose(nch, fmt.Sprintf("key %v", k))
 				if ch == 0 {
 					continue
 				}
@@ -613,14 +619,19 @@ func c09Table(r *run.Run) {
 				switch {
 				case k.PlatformID == 1 && k.Language >= 7:
 					data = cmap.Format12{65: glyph.ID(k.Language), 0x1F600: 2}.Encode(k.Language)
+					wantMap[k] = [3]glyph.ID{glyph.ID(k.Language), 0, 2}
 				case k.PlatformID == 1:
 					data = f0.Encode(k.Language)
+					wantMap[k] = [3]glyph.ID{4, 0, 0}
 				case k.EncodingID == 10 || k.EncodingID == 4:
 					data = f12.Encode(0)
+					wantMap[k] = [3]glyph.ID{1, 0, 2}
 				case ch == 1:
 					data = f4.Encode(0) // shared between all BMP keys that pick it
+					wantMap[k] = [3]glyph.ID{1, 2, 0}
 				default:
 					data = f4b.Encode(0)
+					wantMap[k] = [3]glyph.ID{3, 0, 0}
 				}
 				_ = i
 				t[k] = data
@@ -646,6 +657,24 @@ func c09Table(r *run.Run) {
 			for k, d := range t {
 				if !bytes.Equal(t2[k], d) {
 					c.Fail("C09.table", "bytes", "subtable %v differs after the round trip (%v)", k, desc)
+				}
+			}
+			// every key still leads to the mapping its subtable was encoded from (the encoded subtables were all
+			// produced before the first of them was used); judged by the reference decoder
+			for _, k := range keys {
+				w, ok := wantMap[k]
+				if !ok {
+					continue
+				}
+				m, err := refcmap.Decode(t2[k])
+				if err != nil {
+					c.Fail("C09.table", "mapping", "subtable %v is malformed after the round trip: %v (%v)", k, err, desc)
+					continue
+				}
+				for j, r := range []uint32{65, 66, 0x1F600} {
+					if g := m[r]; g != uint16(w[j]) {
+						c.Fail("C09.table", "mapping", "subtable %v maps %U to glyph %d after the round trip, %d was encoded (%v)", k, r, g, w[j], desc)
+					}
 				}
 			}
 			// sharing: total size = header + distinct subtables
